@@ -84,7 +84,7 @@ class Check(PropCheck):
     def gen_cases(self):
         rng = self.rng
         cases = []
-        maxlen = 5 if self.tier == 'quick' else 6
+        maxlen = 5
         k = 0
         strings = []
         for n in range(0, maxlen + 1):
@@ -125,6 +125,23 @@ class Check(PropCheck):
         for i, s in enumerate(strings):
             cases.append(Case('s%d' % i, ['parse ' + vf.enc_str(s), 'dump', 'rt_newick'], {'text': s}))
         return cases
+
+    def case_chunks(self):
+        """quick: one chunk; thorough: the exhaustive strings of length 6 are streamed in chunks (bounded memory)"""
+        yield self.gen_cases()
+        if self.tier != 'quick':
+            chunk = []
+            k = 0
+            for tup in itertools.product(ALPHA, repeat=6):
+                s = ''.join(tup)
+                chunk.append(Case('x%d' % k, ['parse ' + vf.enc_str(s), 'dump', 'rt_newick'], {'text': s})); k += 1
+                if len(chunk) >= 250000:
+                    yield chunk
+                    chunk = []
+            if chunk:
+                yield chunk
+            self.stats['exhaustive_maxlen'] = 6
+            self.stats['exhaustive_strings'] = self.stats.get('exhaustive_strings', 0) + k
 
     def nontrivial(self, case, il):
         if not il:
